@@ -1,5 +1,6 @@
 """property id -> harness modules (each exposes cases(tier) -> [Case])"""
 REGISTRY = {
+    "C09": {"modules": ["harness.C09_bpe"], "uncovered": []},
     "C03": {"modules": ["harness.C03_cooc"], "uncovered": []},
     "C04": {"modules": ["harness.C04_accumulator"], "uncovered": []},
     "C18": {"modules": ["harness.C18_distances"],
